@@ -206,11 +206,11 @@ for sh, T in (("u8", "u8"), ("id", "Key")):
     add("c07_retain_" + sh, "c07::h_set_retain::<%s, {N}>()" % T, ["C07", "C05"], Q3, T3, fn="Set::retain", shape=S)
     add("c07_clear_" + sh, "c07::h_set_clear_drain::<%s, {N}>(false)" % T, ["C07"], Q3, T3, fn="Set::clear", shape=S)
     add("c07_drain_" + sh, "c07::h_set_clear_drain::<%s, {N}>(true)" % T, ["C07", "C10"], Q3, T3, profile="both", fn="Set::drain, SetDrain::next/len", shape=S)
-    add("c07_extend_lazy_" + sh, "c07::h_set_extend::<%s, {N}, {L}>(2)" % T, ["C07", "C16", "C05"], [{"N": 2, "L": 2}], [{"N": 2, "L": 3}, {"N": 3, "L": 3}],
+    add("c07_extend_lazy_" + sh, "c07::h_set_extend::<%s, {N}, {L}>(2)" % T, ["C07", "C16", "C05"] + (["C12"] if sh == "id" else []), [{"N": 2, "L": 2}], [{"N": 2, "L": 3}, {"N": 3, "L": 3}],
         unwind="max(N,L)+2", fn="Extend<T>::extend for Set from an iterator without a size hint", shape=S)
-    add("c07_extend_" + sh, "c07::h_set_extend::<%s, {N}, {L}>(0)" % T, ["C07", "C16", "C05"], [{"N": 1, "L": 2}, {"N": 2, "L": 2}], [{"N": 2, "L": 3}, {"N": 3, "L": 3}],
+    add("c07_extend_" + sh, "c07::h_set_extend::<%s, {N}, {L}>(0)" % T, ["C07", "C16", "C05"] + (["C12"] if sh == "id" else []), [{"N": 1, "L": 2}, {"N": 2, "L": 2}], [{"N": 2, "L": 3}, {"N": 3, "L": 3}],
         unwind="max(N,L)+2", fn="Extend<T>::extend for Set", shape=S)
-    add("c07_extend_ref_" + sh, "c07::h_set_extend::<%s, {N}, {L}>(1)" % T, ["C07", "C16", "C05"], [{"N": 2, "L": 2}], [{"N": 2, "L": 3}, {"N": 3, "L": 3}],
+    add("c07_extend_ref_" + sh, "c07::h_set_extend::<%s, {N}, {L}>(1)" % T, ["C07", "C16", "C05"] + (["C12"] if sh == "id" else []), [{"N": 2, "L": 2}], [{"N": 2, "L": 3}, {"N": 3, "L": 3}],
         unwind="max(N,L)+2", fn="Extend<&T>::extend for Set", shape=S)
 
 # ------------------------------------------------------------------ C09 borrowing iterators, C05 observations
